@@ -19,6 +19,7 @@ import Driver.Dispatch
 import Driver.Simd
 import Driver.BufCfg
 import Driver.ToolGate
+import Driver.C11
 
 def main (args : List String) : IO UInt32 := do
   match args with
@@ -43,4 +44,5 @@ def main (args : List String) : IO UInt32 := do
   | ["simd"] => Driver.simdMain; return 0
   | ["bufcfg"] => Driver.bufCfgMain; return 0
   | ["toolgate"] => Driver.toolGateMain; return 0
+  | ["c11"] => Driver.c11Main; return 0
   | _ => IO.eprintln "usage: svtmodel <subcommand>  (input on stdin, one op per line)"; return 2
